@@ -42,7 +42,9 @@ var structuralPatterns = []string{
 // JSON syntax errors ("invalid character 'x' looking for beginning of value")
 var jsonSyntaxRe = regexp.MustCompile(`invalid character '.{1,8}' (looking for|after|in (string|numeric|literal))`)
 
-var provRe = regexp.MustCompile(`(?:provision|validate) ([a-z0-9_.]+): `)
+// a namespaced module id after provision/validate (app-level steps such as "provision http"
+// are not counted: apps are provisioned in map order, so they come and go in the chain)
+var provRe = regexp.MustCompile(`(?:provision|validate) ([a-z0-9_]+\.[a-z0-9_.]+): `)
 
 // classifyInvalid returns the failure class and its kind:
 //
@@ -75,7 +77,25 @@ func classifyInvalid(v validRes) (cls string, kind string) {
 		l := loc[len(loc)-1]
 		mod, tail = m[l[2]:l[3]], m[l[1]:]
 	}
-	return "semantic:" + mod + ":" + signature(tail, 6), "semantic"
+	return "semantic:" + mod + ":" + headTail(tail), "semantic"
+}
+
+var wrapperRe = regexp.MustCompile(`^(getting|loading|provisioning|setting up|building|configuring|position|provision|validate|server|route|module name|listener|connection policy) [^:]*: `)
+
+// headTail: the normalised message without its leading "doing X: " wrappers, first 6 words,
+// first line only.
+func headTail(m string) string {
+	if k := strings.IndexByte(m, '\n'); k >= 0 {
+		m = m[:k]
+	}
+	for {
+		loc := wrapperRe.FindStringIndex(m)
+		if loc == nil {
+			break
+		}
+		m = m[loc[1]:]
+	}
+	return signature(m, 6)
 }
 
 // signature: the first n words of the message with every quoted string, number and
